@@ -247,9 +247,30 @@ def ob_candidates_nonempty(F, parent, fn, sites):
 def ob_calc_codes_total(F, parent, fn, sites):
     b = F.bodies[fn]
     bad = []
+    def sources(op, depth=0, seen=None):
+        """Calls whose failure can reach this Result: through `?` (from_residual <- branch <- call) and `Ok(..)` wrapping."""
+        seen = set() if seen is None else seen
+        o = flow.origin(b, op)
+        out = []
+        for cbb, t in o.calls:
+            if cbb in seen or depth > 6:
+                continue
+            seen.add(cbb)
+            n = strip_generics(callee_def(t))
+            if (n.endswith("from_residual") or n.endswith("Try::branch")) and t["args"]:
+                out += sources(t["args"][0], depth + 1, seen)
+            else:
+                out.append(n)
+        for ebb, idx, r in o.exprs:
+            if r.get("k") == "agg" and r.get("vname") in ("Ok", "Break", "Continue") and r.get("adt") in ("std::result::Result", "std::ops::ControlFlow"):
+                if r.get("vname") == "Break":
+                    for x in r.get("ops", []):
+                        out += sources(x, depth + 1, seen)
+                continue
+            out.append("expr:%s" % r.get("k"))
+        return out
     for s in sites:
-        o = flow.origin(b, b.term(s["bb"])["args"][0])
-        names = [strip_generics(callee_def(t)) for _, t in o.calls]
+        names = sorted(set(sources(b.term(s["bb"])["args"][0])))
         if names != [P + "huffman_helper::calc_huffman_codes"]:
             bad.append(str(names))
     # calc_huffman_codes: every Err return is ...? accept when the only failure is an explicit err on invalid lengths
